@@ -7,6 +7,7 @@ mod c02;
 mod c05;
 mod c07;
 mod progs;
+mod c11;
 mod c12;
 mod c13;
 mod c14;
@@ -51,6 +52,7 @@ fn main() {
         ("gen", "C02") => c02::gen(&a),
         ("gen", "C05") => c05::gen(&a),
         ("gen", "C07") => c07::gen(&a),
+        ("gen", "C11") => c11::gen(&a),
         ("gen", "C12") => c12::gen(&a),
         ("gen", "C13") => c13::gen(&a),
         ("gen", "C14") => c14::gen(&a),
